@@ -190,7 +190,7 @@ def _work(unit):
                     ptag = pf[0].tag if pf else None
                     cobs = [_norm(x) for x in cg._obs]
                     sobs = [_norm(x) for x in (pobs[0] if pobs else [])]
-                    ok = (ctag == ptag) and (cobs == sobs) and len(pobs) == 1
+                    ok = (ctag == ptag) and _close(cobs, sobs) and len(pobs) == 1
                     out["agree"] = {"status": "ok" if ok else "MISMATCH", "values": _safe(cg.drawn),
                                     "concrete": [ctag, _safe(cobs)], "symbolic": [ptag, _safe(sobs)],
                                     "paths": len(pobs), "n_obs": len(cobs)}
@@ -198,6 +198,21 @@ def _work(unit):
         out["error"] = "".join(traceback.format_exception(type(e), e, e.__traceback__))[-3000:]
     out["wall"] = time.time() - t0
     return out
+
+
+def _close(a, b):
+    """observations agree: exactly for ints/bools/strings, up to 1e-9 relative for values that went through
+    a CPython float operation in the concrete run (int / int, float * Fraction ...)."""
+    import fractions
+    if isinstance(a, list) and isinstance(b, list):
+        return len(a) == len(b) and all(_close(x, y) for x, y in zip(a, b))
+    if isinstance(a, fractions.Fraction) and isinstance(b, fractions.Fraction):
+        if a == b:
+            return True
+        if a.denominator == 1 and b.denominator == 1:
+            return False
+        return abs(a - b) <= fractions.Fraction(1, 10 ** 9) * max(abs(a), abs(b), 1)
+    return a == b
 
 
 def _norm(x):
